@@ -20,7 +20,10 @@ import (
 //
 // Use: call OnInstr from Hooks.Instr and OnBranch from Hooks.Branch.
 type LoopSym struct {
-	Fn    *ssa.Function
+	Fn *ssa.Function
+	// In, when set, widens the treatment from Fn to every function it accepts
+	// (helpers the analysed function was split into).
+	In    func(*ssa.Function) bool
 	Facts *LinFacts // receives counter >= initial value
 	// Vars lists the counters made symbolic on this path, in order.
 	Vars   []LoopVar
@@ -35,6 +38,16 @@ type LoopVar struct {
 	Step1  bool   // the counter advances by exactly 1 per round (every position is visited)
 }
 
+func (l *LoopSym) covers(fn *ssa.Function) bool {
+	if fn == nil {
+		return false
+	}
+	if fn == l.Fn {
+		return true
+	}
+	return l.In != nil && l.In(fn)
+}
+
 func isLoopHeader(b *ssa.BasicBlock) bool {
 	return b != nil && (strings.HasPrefix(b.Comment, "for.loop") || strings.HasPrefix(b.Comment, "rangeindex.loop"))
 }
@@ -42,7 +55,7 @@ func isLoopHeader(b *ssa.BasicBlock) bool {
 // OnInstr must see every instruction before it is evaluated.
 func (l *LoopSym) OnInstr(in *Interp, fr *Frame, ins ssa.Instruction) {
 	b := ins.Block()
-	if fr.Fn != l.Fn || !isLoopHeader(b) {
+	if !l.covers(fr.Fn) || !isLoopHeader(b) {
 		return
 	}
 	if _, isPhi := ins.(*ssa.Phi); isPhi {
@@ -123,7 +136,7 @@ func (l *LoopSym) OnInstr(in *Interp, fr *Frame, ins ssa.Instruction) {
 
 // OnBranch leaves a symbolic loop when control returns to its header.
 func (l *LoopSym) OnBranch(in *Interp, cond Val, site ssa.Instruction) (bool, bool) {
-	if site == nil || site.Parent() != l.Fn || !isLoopHeader(site.Block()) {
+	if site == nil || !l.covers(site.Parent()) || !isLoopHeader(site.Block()) {
 		return false, false
 	}
 	if l.visits[site.Block()] >= 2 {
